@@ -119,6 +119,10 @@ pub struct Scenario {
     pub now: DateTime<Utc>,
     /// injected faults: (property, description, necessarily fatal?)
     pub faults: Vec<(&'static str, String, bool)>,
+    /// a change made to the parsed layout in memory, after signing: its key table re-filed
+    /// (`extra` = a listed key entered once more under an id of its own making, `swap` = two listed
+    /// keys under each other's ids)
+    pub mem_refile: Option<&'static str>,
 }
 
 // ------------------------------------------------------------------ materialisation
@@ -412,6 +416,11 @@ pub struct Outcome {
     pub op: String,
     /// members of the returned summary link that the summary is not made of (must be absent)
     pub summary_extra: Option<String>,
+    /// names of the top-level layout's inspections in the order their commands started
+    pub top_events_in_order: Vec<String>,
+    /// what is wrong with the materials an inspection recorded (they are the files as they were when
+    /// its command started: among them the link file the verifier wrote for the inspection before it)
+    pub inspection_material_faults: Vec<String>,
 }
 
 /// Run the real `in_toto_verify` on the scenario in a fresh scratch directory and build the model's op.
@@ -438,8 +447,21 @@ pub fn run(pool: &[KeyInfo], s: &Scenario) -> Outcome {
     in_toto::verif_hooks::set_now(Some(s.now));
     let links_str = links.to_str().unwrap().to_string();
     let name = s.name.clone();
+    let refile = s.mem_refile;
     let res = guarded(std::panic::AssertUnwindSafe(|| {
-        let block: Metablock = serde_json::from_str(&text).map_err(|e| format!("parse: {}", e))?;
+        let mut block: Metablock = serde_json::from_str(&text).map_err(|e| format!("parse: {}", e))?;
+        if let (Some(kind), MetadataWrapper::Layout(l)) = (refile, &mut block.metadata) {
+            let mut ids: Vec<KeyId> = l.keys.keys().cloned().collect();
+            ids.sort();
+            if kind == "swap" && ids.len() >= 2 {
+                let (a, b) = (l.keys.remove(&ids[0]).unwrap(), l.keys.remove(&ids[1]).unwrap());
+                l.keys.insert(ids[0].clone(), b);
+                l.keys.insert(ids[1].clone(), a);
+            } else if let Some(first) = ids.first() {
+                let k = l.keys[first].clone();
+                l.keys.insert(KeyId::from_str(&"5a".repeat(32)).unwrap(), k);
+            }
+        }
         in_toto_verify(&block, keys, &links_str, name.as_deref()).map_err(|e| format!("{}", e))
     }));
     in_toto::verif_hooks::set_now(None);
@@ -447,7 +469,28 @@ pub fn run(pool: &[KeyInfo], s: &Scenario) -> Outcome {
     // events: what the inspection scripts logged
     let log = std::fs::read_to_string(cwd.join("run.log")).unwrap_or_default();
     let mut events: Vec<String> = log.lines().map(|l| l.to_string()).collect();
+    let top_events_in_order: Vec<String> = events.iter().filter_map(|e| e.strip_prefix('|').map(String::from)).collect();
     events.sort();
+    // each top-level inspection that ran recorded, among its materials, the link file of the inspection
+    // that ran before it - with the digest of that file (no inspection command touches those files)
+    let mut inspection_material_faults = vec![];
+    for w in top_events_in_order.windows(2) {
+        let (prev, cur) = (&w[0], &w[1]);
+        let link = std::fs::read_to_string(cwd.join(format!("{}.link", cur))).ok().and_then(|t| serde_json::from_str::<Metablock>(&t).ok());
+        if let Some(Metablock { metadata: MetadataWrapper::Link(l), .. }) = link {
+            let key = VirtualTargetPath::new(format!("{}.link", prev)).unwrap();
+            match (l.materials.get(&key), std::fs::read(cwd.join(format!("{}.link", prev)))) {
+                (None, Ok(_)) => inspection_material_faults.push(format!("the materials recorded for inspection {} lack {}.link, which was there when its command started", cur, prev)),
+                (Some(d), Ok(bytes)) => {
+                    let want = hex(ring::digest::digest(&ring::digest::SHA256, &bytes).as_ref());
+                    if d.get(&in_toto::crypto::HashAlgorithm::Sha256).map(|h| h.to_string()) != Some(want) {
+                        inspection_material_faults.push(format!("the materials recorded for inspection {} carry another digest for {}.link than that file has", cur, prev));
+                    }
+                }
+                _ => {}
+            }
+        }
+    }
     // inspection outcomes observed on disk (their link files), for the model's `run` parameter
     let mut insps = vec![];
     inspections(pool, &s.block, &s.dir, "", &mut insps);
@@ -504,7 +547,7 @@ pub fn run(pool: &[KeyInfo], s: &Scenario) -> Outcome {
     }
     op.push_str(&format!(" {} {} {}", enc_block(pool, &s.block), enc_dir(pool, &s.dir), runs));
     drop(tmp);
-    Outcome { answer, ok, panicked, events, op, summary_extra }
+    Outcome { answer, ok, panicked, events, op, summary_extra, top_events_in_order, inspection_material_faults }
 }
 
 // ------------------------------------------------------------------ generator
@@ -620,7 +663,8 @@ impl<'a> Gen<'a> {
             let threshold = threshold.min(auth.len() as u32);
             let mats = prev_prods.clone();
             let mut prods = mats.clone();
-            prods.push((format!("out{}", i), 1 + (i as u8)));
+            // (multi-party scenarios record two digest algorithms per artifact: sha256 = v, sha512 = v + 1)
+            prods.push((format!("out{}", i), if self.multi_party { 4 * (1 + i as u8) + 3 } else { 1 + (i as u8) }));
             if i > 0 && self.r.chance(1, 3) {
                 prods[0].1 = 9; // modified
             }
@@ -663,6 +707,20 @@ impl<'a> Gen<'a> {
                             self.co_delegate = co_now;
                             let mut b = x.0;
                             b.sigs = vec![SSig { label: k, signer: k, corrupt: false }];
+                            // a sub-layout may carry further signatures (a reviewer's, another functionary's
+                            // of this layout), before or after the delegating functionary's own
+                            if !co && self.r.chance(1, 3) {
+                                let others: Vec<usize> = funs.iter().cloned().filter(|&o| prefix8(self.pool, o) != prefix8(self.pool, k)).collect();
+                                if !others.is_empty() {
+                                    let c = *self.r.pick(&others);
+                                    let sig = SSig { label: c, signer: c, corrupt: false };
+                                    if self.r.chance(1, 2) {
+                                        b.sigs.insert(0, sig);
+                                    } else {
+                                        b.sigs.push(sig);
+                                    }
+                                }
+                            }
                             if co {
                                 shared = Some((b.clone(), x.1.clone()));
                             }
@@ -694,11 +752,18 @@ impl<'a> Gen<'a> {
         }
         let mut inspect = vec![];
         if allow_insp {
-            for _ in 0..self.r.below(3) {
+            for _ in 0..*self.r.pick(&[0usize, 1, 2, 2, 3, 4]) {
                 let n = format!("insp{}", self.insp_counter);
                 self.insp_counter += 1;
                 let action = *self.r.pick(&["", "echo new > created.txt;", "echo more >> foo;", "rm -f foo;"]);
-                inspect.push(SInsp { name: n.clone(), mats: vec![ArtifactRule::Allow(vp("*"))], prods: vec![ArtifactRule::Allow(vp("*"))], script: Some(script(path, &n, 0, action)) });
+                // (an inspection may rely on what the one listed before it left behind: its link file)
+                let mut mats = vec![ArtifactRule::Allow(vp("*"))];
+                if let Some(prev) = inspect.last().map(|p: &SInsp| p.name.clone()) {
+                    if self.r.chance(2, 3) {
+                        mats = vec![ArtifactRule::Require(vp(&format!("{}.link", prev))), ArtifactRule::Allow(vp("*"))];
+                    }
+                }
+                inspect.push(SInsp { name: n.clone(), mats, prods: vec![ArtifactRule::Allow(vp("*"))], script: Some(script(path, &n, 0, action)) });
             }
         }
         let mut keys = funs.clone();
@@ -728,7 +793,7 @@ impl<'a> Gen<'a> {
         let nown = 1 + self.r.below(2);
         let owners = self.pick_keys(nown, &[]);
         let (block, dir) = self.valid_layout(depth, "", &owners, allow_insp);
-        Scenario { block, caller_keys: owners, alias_ids: false, dir, name: if self.r.chance(1, 2) { Some("final".into()) } else { None }, now: self.now, faults: vec![] }
+        Scenario { block, caller_keys: owners, alias_ids: false, dir, name: if self.r.chance(1, 2) { Some("final".into()) } else { None }, now: self.now, faults: vec![], mem_refile: None }
     }
 }
 
